@@ -591,6 +591,25 @@ def _delta(run):
         one = any(fc[1] and matches('%s is None' % T1, fc[2].ast) is not None for fc in fs)
         e = canon(cx.fi, r.value)
         ents = vector_literal(e)
+        if ents is not None and len(ents) == 4 and all(isinstance(z, ast.Constant) and z.value == 0 for z in ents[1:]):
+            # a translation-only arm (equal rotations): the displacement expressed in the T0 frame is R0^T (t1 - t0)
+            tr = ents[0]
+            good = any(matches(p_ % dict(a=T0, b=T1), tr) is not None for p_ in (
+                '%(a)s[:3, :3].T @ (%(b)s[:3, 3] - %(a)s[:3, 3])', 't2r(%(a)s).T @ (transl(%(b)s) - transl(%(a)s))',
+                '%(b)s[:3, :3].T @ (%(b)s[:3, 3] - %(a)s[:3, 3])', 't2r(%(b)s).T @ (transl(%(b)s) - transl(%(a)s))'))
+            near = any(matches(p_ % dict(a=T0, b=T1), tr) is not None for p_ in (
+                '%(a)s[:3, :3] @ (%(b)s[:3, 3] - %(a)s[:3, 3])', 't2r(%(a)s) @ (transl(%(b)s) - transl(%(a)s))',
+                '%(b)s[:3, :3] @ (%(b)s[:3, 3] - %(a)s[:3, 3])', '%(a)s[:3, :3].T @ (%(a)s[:3, 3] - %(b)s[:3, 3])',
+                '%(b)s[:3, 3] - %(a)s[:3, 3]', 'transl(%(b)s) - transl(%(a)s)'))
+            if good:
+                run.holds(RULE, cx.f.key, 'tr2delta translation-only arm', 'displacement R0^T (t1 - t0), rotation increment zero', f=cx.f, node=r)
+            elif near:
+                run.violation(RULE, cx.f.key, 'tr2delta translation-only arm', 'the displacement of the arm is %s; the translation of T0^-1 T1 is '
+                              'R0^T (t1 - t0): the difference of the origins must be rotated INTO the T0 frame (transpose), in that order' % src(tr, 60),
+                              f=cx.f, node=r)
+            else:
+                run.error('R16: tr2delta: translation-only arm with an unrecognised displacement (%s)' % src(tr, 60))
+            continue
         if ents is None or len(ents) != 2:
             run.error('R16: tr2delta: return is not r_[translation, rotation] (%s)' % src(e, 60))
             continue
@@ -1178,13 +1197,18 @@ def _trot2(run):
         cx = Ctx(run, key)
         f = cx.f
         defs, stores = {}, {}
+        from ..cfg import pure_locals as _pl, _subst_pure as _sp
+        env_ = {k: v for k, v in _pl(f.node).items() if k != 'T'}      # R = rot2(theta, unit); T = np.pad(R, ...)
         for st in own_walk(f.node):
             if isinstance(st, ast.Assign) and len(st.targets) == 1:
                 tg = st.targets[0]
+                val_ = st.value
+                for _ in range(3):
+                    val_ = _sp(val_, env_)
                 if isinstance(tg, ast.Name):
-                    defs[tg.id] = cx.norm.poly(canon(cx.fi, st.value, inline=False))
+                    defs[tg.id] = cx.norm.poly(canon(cx.fi, val_, inline=False))
                 elif isinstance(tg, ast.Subscript) and isinstance(tg.value, ast.Name):
-                    stores[cx.norm.slice_str(tg.slice)] = cx.norm.poly(canon(cx.fi, st.value, inline=False))
+                    stores[cx.norm.slice_str(tg.slice)] = cx.norm.poly(canon(cx.fi, val_, inline=False))
         if key.endswith('trot2'):
             wantT = Normaliser().poly(parse_expr("pad(rot2(P0, P1), (0, 1), mode='constant')"))
         else:
@@ -1780,7 +1804,11 @@ def tables_c19(run):
     cx = Ctx(run, 'geom3d:Plucker.point')
     r = _single_return_value(cx)
     if r is not None:
-        g = cx.norm.poly(canon(cx.fi, r.value, inline=False))
+        from ..cfg import pure_locals as _pl2, _subst_pure as _sp2
+        rv_ = r.value
+        for _ in range(3):
+            rv_ = _sp2(rv_, _pl2(cx.f.node))          # origin = self.pp.reshape((3, 1)); direction = ...; return origin + direction * lam
+        g = cx.norm.poly(canon(cx.fi, rv_, inline=False))
         w = Normaliser().poly(parse_expr('SELF.pp.reshape((3, 1)) + SELF.uw.reshape((3, 1)) * lam'))
         w2 = Normaliser().poly(parse_expr('SELF.pp.reshape((3, 1)) + SELF.uw.reshape((3, 1)) * P0'))
         (run.holds if g in (w, w2) else run.violation)(RULE, cx.f.key, 'point(lam)', 'pp + uw * lam' if g in (w, w2) else 'point is %s, not pp + uw*lam' % g, f=cx.f, node=r)
